@@ -95,6 +95,9 @@ type site struct {
 	ctc         ast.Expr
 	id          string
 	usedAsFirst bool
+	ip          ast.Expr // AccessRequest.IP
+	creds       ast.Expr // AccessRequest.Credentials
+	ipCond      bool     // IP assigned under a condition
 }
 
 type pkg struct {
@@ -104,6 +107,7 @@ type pkg struct {
 	fieldDef map[string][]definer // field name -> assignments x.f = E and keyed elements f: E
 	calls    map[string][]callsite
 	sites    []*site
+	compTypes map[string]bool // types of the composite literals written in the package
 }
 
 type streamSite struct {
@@ -212,7 +216,8 @@ func boolLit(e ast.Expr) string {
 // ---- collection ----------------------------------------------------------------------------
 
 func loadPkg(repo, dir string) *pkg {
-	p := &pkg{dir: dir, byName: map[string][]*fn{}, fieldDef: map[string][]definer{}, calls: map[string][]callsite{}}
+	p := &pkg{dir: dir, byName: map[string][]*fn{}, fieldDef: map[string][]definer{}, calls: map[string][]callsite{},
+		compTypes: map[string]bool{}}
 	ents, _ := os.ReadDir(filepath.Join(repo, dir))
 	for _, e := range ents {
 		n := e.Name()
@@ -258,6 +263,7 @@ func loadPkg(repo, dir string) *pkg {
 				}
 			case *ast.CompositeLit:
 				t := text(x.Type)
+				p.compTypes[t] = true
 				if strings.HasSuffix(t, "PathAccessRequest") || strings.HasPrefix(t, "defs.Path") {
 					return true
 				}
@@ -329,7 +335,13 @@ func accessRequest(f *fn, v ast.Expr) (map[string]ast.Expr, map[string]string, b
 						if r, ok := s.X.(*ast.Ident); ok && r.Name == id.Name && fields != nil {
 							if cond == "" {
 								fields[s.Sel.Name] = x.Rhs[0]
-							} else if s.Sel.Name == "SkipAuth" || s.Sel.Name == "Name" || s.Sel.Name == "Publish" {
+							} else if s.Sel.Name == "Credentials" {
+								if _, dup := conds["Credentials"]; dup || fields["Credentials"] != nil {
+									conds["IP"] = "credentials assigned twice" // makes the identity unknown
+								}
+								conds["Credentials"] = cond + " => " + text(x.Rhs[0])
+								fields["Credentials?"] = x.Rhs[0]
+							} else if s.Sel.Name == "SkipAuth" || s.Sel.Name == "Name" || s.Sel.Name == "Publish" || s.Sel.Name == "IP" {
 								conds[s.Sel.Name] = cond + " => " + text(x.Rhs[0])
 							}
 						}
@@ -464,6 +476,203 @@ func reassignedAfter(f *fn, e ast.Expr, pos token.Pos) bool {
 	return found
 }
 
+
+// ---- requester identity ------------------------------------------------------------------------
+
+// Which expression supplies AccessRequest.IP (Model/C03_Origin.v, ipsrc):
+//
+//	SClient   gin's Context.ClientIP() of the HTTP request (directly, or through httpp.RemoteAddr(ctx) whose body is
+//	          pinned below): honours X-Forwarded-For / X-Real-Ip of peers inside <proto>TrustedProxies only
+//	SPeer     the transport peer: X.RemoteAddr() of a connection, or the RemoteAddr FIELD of a http.Request
+//	SNone     no IP given
+//	SUnknown  anything else, or different sources on different ways to the site
+//
+// The walk is by syntax: net.ParseIP(x) -> x; `h, _, _ := net.SplitHostPort(y)` -> y; x.String() -> x;
+// x.(*net.TCPAddr).IP -> x; a method without arguments of the package whose body is one return statement -> that
+// expression; locals, parameters (every call site) and struct fields (every assignment / keyed element of that
+// field NAME in the package) -> all their definitions, which have to agree. A selector ending in `.RemoteAddr` that
+// is not called is the field of a http.Request (the only such field read in the servers): the TCP peer.
+const httppRemoteAddrBody = "{ ip := ctx.ClientIP() _, port, _ := net.SplitHostPort(ctx.Request.RemoteAddr) return net.JoinHostPort(ip, port) }"
+
+var httppRemoteAddrOK bool
+
+func checkHTTPPRemoteAddr(repo string) {
+	af, err := parser.ParseFile(fset, filepath.Join(repo, "internal/protocols/httpp/remote_addr.go"), nil, 0)
+	if err != nil {
+		return
+	}
+	for _, d := range af.Decls {
+		if fd, ok := d.(*ast.FuncDecl); ok && fd.Name.Name == "RemoteAddr" && fd.Recv == nil && fd.Body != nil {
+			httppRemoteAddrOK = text(fd.Body) == httppRemoteAddrBody
+		}
+	}
+}
+
+type ipWalk struct {
+	visited map[string]bool
+	how     []string
+}
+
+func joinSrc(rs []string) string {
+	out := ""
+	for _, r := range rs {
+		switch {
+		case r == "": // cycle: no information
+		case out == "":
+			out = r
+		case out != r:
+			return "SUnknown"
+		}
+	}
+	return out
+}
+
+func (w *ipWalk) src(f *fn, e ast.Expr, depth int) string {
+	if e == nil {
+		return "SNone"
+	}
+	if depth > 10 {
+		return "SUnknown"
+	}
+	key := f.id() + "|" + text(e)
+	if w.visited[key] {
+		return ""
+	}
+	w.visited[key] = true
+	switch x := e.(type) {
+	case *ast.ParenExpr:
+		return w.src(f, x.X, depth+1)
+	case *ast.TypeAssertExpr:
+		return w.src(f, x.X, depth+1)
+	case *ast.CallExpr:
+		ft := text(x.Fun)
+		if ft == "net.ParseIP" && len(x.Args) == 1 {
+			return w.src(f, x.Args[0], depth+1)
+		}
+		if ft == "httpp.RemoteAddr" && len(x.Args) == 1 {
+			if httppRemoteAddrOK {
+				w.how = append(w.how, "httpp.RemoteAddr(ctx) = ctx.ClientIP() + port of the peer")
+				return "SClient"
+			}
+			return "SUnknown"
+		}
+		sel, ok := x.Fun.(*ast.SelectorExpr)
+		if !ok || len(x.Args) != 0 {
+			return "SUnknown"
+		}
+		switch sel.Sel.Name {
+		case "ClientIP":
+			w.how = append(w.how, text(e))
+			return "SClient"
+		case "String":
+			return w.src(f, sel.X, depth+1)
+		case "RemoteAddr":
+			w.how = append(w.how, text(e))
+			return "SPeer"
+		}
+		// a method of the package: one return statement
+		var rs []string
+		for _, g := range f.pkg.byName[sel.Sel.Name] {
+			if g.recv == "" || len(g.params) != 0 || len(g.decl.Body.List) != 1 {
+				return "SUnknown"
+			}
+			rt, ok := g.decl.Body.List[0].(*ast.ReturnStmt)
+			if !ok || len(rt.Results) != 1 {
+				return "SUnknown"
+			}
+			rs = append(rs, w.src(g, rt.Results[0], depth+1))
+		}
+		if len(rs) == 0 {
+			return "SUnknown"
+		}
+		return joinSrc(rs)
+	case *ast.SelectorExpr:
+		if x.Sel.Name == "IP" {
+			if ta, ok := x.X.(*ast.TypeAssertExpr); ok {
+				return w.src(f, ta.X, depth+1)
+			}
+		}
+		if x.Sel.Name == "RemoteAddr" {
+			w.how = append(w.how, text(e)+" (field of the http.Request)")
+			return "SPeer"
+		}
+		var rs []string
+		for _, d := range f.pkg.fieldDef[x.Sel.Name] {
+			rs = append(rs, w.src(d.f, d.rhs, depth+1))
+		}
+		if len(rs) == 0 {
+			return "SUnknown"
+		}
+		return joinSrc(rs)
+	case *ast.Ident:
+		for i, pn := range f.params {
+			if pn == x.Name {
+				var rs []string
+				for _, cs := range f.pkg.calls[f.decl.Name.Name] {
+					if len(cs.call.Args) == len(f.params) {
+						rs = append(rs, w.src(cs.f, cs.call.Args[i], depth+1))
+					}
+				}
+				if len(rs) == 0 {
+					return "SUnknown"
+				}
+				return joinSrc(rs)
+			}
+		}
+		var rs []string
+		bad := false
+		ast.Inspect(f.decl.Body, func(n ast.Node) bool {
+			as, ok := n.(*ast.AssignStmt)
+			if !ok {
+				return true
+			}
+			for i, l := range as.Lhs {
+				li, ok := l.(*ast.Ident)
+				if !ok || li.Name != x.Name {
+					continue
+				}
+				switch {
+				case len(as.Lhs) == len(as.Rhs):
+					rs = append(rs, w.src(f, as.Rhs[i], depth+1))
+				case len(as.Rhs) == 1 && i == 0:
+					if c, ok := as.Rhs[0].(*ast.CallExpr); ok && text(c.Fun) == "net.SplitHostPort" && len(c.Args) == 1 {
+						rs = append(rs, w.src(f, c.Args[0], depth+1))
+					} else {
+						bad = true
+					}
+				default:
+					bad = true
+				}
+			}
+			return true
+		})
+		if bad || len(rs) == 0 {
+			return "SUnknown"
+		}
+		return joinSrc(rs)
+	}
+	return "SUnknown"
+}
+
+// the carrier of a request (Model/C03_Origin.v): CHttp - it arrived as a HTTP request served by gin (its credentials
+// are httpp.Credentials(...) or the function has a *gin.Context); CTcp - a TCP connection accepted through
+// internal/protocols/proxy.Listener when <proto>TrustedProxies is set (the package builds a proxy.Listener);
+// CDirect - any other connection (SRT, QUIC)
+func carrierOf(s *site) string {
+	if s.creds != nil && strings.HasPrefix(text(s.creds), "httpp.Credentials(") {
+		return "CHttp"
+	}
+	for _, fl := range s.f.decl.Type.Params.List {
+		if text(fl.Type) == "*gin.Context" {
+			return "CHttp"
+		}
+	}
+	if s.f.pkg.compTypes["proxy.Listener"] || s.f.pkg.compTypes["&proxy.Listener"] {
+		return "CTcp"
+	}
+	return "CDirect"
+}
+
 // ---- main ----------------------------------------------------------------------------------
 
 func coqBool(s string) string {
@@ -479,6 +688,10 @@ func main() {
 		os.Exit(2)
 	}
 	repo := os.Args[1]
+	checkHTTPPRemoteAddr(repo)
+	type identRow struct{ id, carrier, src, note string }
+	var identRows []identRow
+	var firstRows [][2]string
 	var dirs []string
 	filepath.Walk(filepath.Join(repo, "internal"), func(p string, info os.FileInfo, err error) error {
 		if err == nil && info.IsDir() {
@@ -544,6 +757,14 @@ func main() {
 						return true
 					}
 					s.name = ar["Name"]
+					s.ip = ar["IP"]
+					s.creds = ar["Credentials"]
+					if s.creds == nil {
+						s.creds = ar["Credentials?"] // assigned under a condition (HLS: unless CDN)
+					}
+					if _, ok := conds["IP"]; ok {
+						s.ipCond = true
+					}
 					s.publish = boolLit(ar["Publish"])
 					s.skip = boolLit(ar["SkipAuth"])
 					if c, ok := conds["SkipAuth"]; ok {
@@ -654,6 +875,7 @@ func main() {
 					continue
 				}
 				first.usedAsFirst = true
+				firstRows = append(firstRows, [2]string{s.id, first.id})
 				same := false
 				if s.name != nil && first.name != nil {
 					t := &tracer{visited: map[string]bool{}}
@@ -686,6 +908,20 @@ func main() {
 			if !fs.usedAsFirst {
 				rows = append(rows, row{fs.id, "FFindOnly", "name " + text(fs.name)})
 			}
+		}
+
+		// requester identity of every authenticating call (everything but constant SkipAuth: true)
+		for _, s := range p.sites {
+			if s.skip == "true" {
+				continue
+			}
+			w := &ipWalk{visited: map[string]bool{}}
+			src := w.src(s.f, s.ip, 0)
+			if src == "" || s.ipCond {
+				src = "SUnknown"
+			}
+			identRows = append(identRows, identRow{s.id, carrierOf(s), src,
+				"IP " + text(s.ip) + " <- " + strings.Join(uniq(w.how), ", ") + "; credentials " + text(s.creds)})
 		}
 
 		// stream-level attachments: the stream must be the one returned by a path-manager AddReader of this package
@@ -729,7 +965,7 @@ func main() {
 
 	var b strings.Builder
 	b.WriteString("(* GENERATED by tools/gen/authflows from /repo/internal/** - do not edit. *)\n")
-	b.WriteString("From Coq Require Import List String Bool.\nRequire Import MTX.Model.C03_Auth.\nImport ListNotations.\nLocal Open Scope string_scope.\n\n")
+	b.WriteString("From Coq Require Import List String Bool.\nRequire Import MTX.Model.C03_Auth MTX.Model.C03_Origin.\nImport ListNotations.\nLocal Open Scope string_scope.\n\n")
 	b.WriteString("(* every call site of the path manager's FindPathConf / Describe / AddReader / AddPublisher *)\n")
 	b.WriteString("Definition sites : list (string * flow) := [\n")
 	for i, r := range rows {
@@ -744,6 +980,29 @@ func main() {
 	b.WriteString("(* stream.AddReader call sites in the servers: is the stream the one a path-manager AddReader returned? *)\n")
 	b.WriteString("Definition stream_sites : list (string * bool) := [\n  " + strings.Join(streamRows, ";\n  ") + "\n].\n\n")
 	b.WriteString("Definition unclassified : list string := " + coqStrList(unclassified) + ".\n\n")
+	sort.Slice(identRows, func(i, j int) bool { return identRows[i].id < identRows[j].id })
+	sort.Slice(firstRows, func(i, j int) bool { return firstRows[i][0] < firstRows[j][0] })
+	b.WriteString("(* every authenticating call (FindPathConf; Describe / AddReader / AddPublisher without a constant SkipAuth: true):\n" +
+		"   how the request arrived and which expression supplies AccessRequest.IP *)\n")
+	b.WriteString("Definition ident_sites : list (string * (carrier * ipsrc)) := [\n")
+	for i, r := range identRows {
+		sep := ";"
+		if i == len(identRows)-1 {
+			sep = ""
+		}
+		fmt.Fprintf(&b, "  (\"%s\", (%s, %s))%s  (* %s *)\n", r.id, r.carrier, r.src, sep,
+			strings.ReplaceAll(strings.ReplaceAll(strings.ReplaceAll(r.note, "(*", "( *"), "*)", "* )"), "\"", "'"))
+	}
+	b.WriteString("].\n\n(* two-step flows: attaching site -> the FindPathConf site that authenticated *)\n")
+	b.WriteString("Definition first_steps : list (string * string) := [\n")
+	for i, r := range firstRows {
+		sep := ";"
+		if i == len(firstRows)-1 {
+			sep = ""
+		}
+		fmt.Fprintf(&b, "  (\"%s\", \"%s\")%s\n", r[0], r[1], sep)
+	}
+	b.WriteString("].\n\n")
 	b.WriteString("(* name equivalences used that rest on code outside the package *)\n")
 	b.WriteString("Definition name_assumptions : list string := " + coqStrList(usedEquiv) + ".\n")
 	if err := os.WriteFile(os.Args[2], []byte(b.String()), 0o644); err != nil {
@@ -752,6 +1011,11 @@ func main() {
 	}
 	notes := map[string]any{"sites": len(rows), "exempt": exempt, "unclassified": unclassified,
 		"stream_sites": len(streamRows), "other_stream_sites": otherStream, "name_assumptions": usedEquiv}
+	var ir []map[string]string
+	for _, r := range identRows {
+		ir = append(ir, map[string]string{"id": r.id, "carrier": r.carrier, "src": r.src, "note": r.note})
+	}
+	notes["ident"] = ir
 	var rr []map[string]string
 	for _, r := range rows {
 		rr = append(rr, map[string]string{"id": r.id, "flow": r.flow, "note": r.note})
